@@ -24,6 +24,9 @@ CRATE = "tower_resilience_retry"
 
 
 def run(facts, tr, rep):
+    # the retry loop is analysed with its private helpers (free functions, receiver-less associated functions, async
+    # helpers) inlined; the policy / budget methods stay calls and are recognised by name (public API)
+    facts, tr = facts.shallow, tr.shallow
     sbs = service_call_bodies(facts, crate=CRATE)
     sites = [(b, c) for sb in sbs for (b, c) in inner_calls(facts, sb)]
     rep.floor("C05.inner-call-sites", len(sites), 1)
